@@ -246,8 +246,11 @@ def _cmp_fields(ctx, monitor, key, got, full, fsel, idx, ext, what):
         else:
             ctx.skip(monitor + ".time", "format does not store times (synthesised)")
         if full.unitcell_lengths is not None:
-            if got.unitcell_lengths is None or not (np.array_equal(got.unitcell_lengths, full.unitcell_lengths[fsel])
-                                                    and np.array_equal(got.unitcell_angles, full.unitcell_angles[fsel])):
+            # compared in float32, the documented type of these attributes: a Trajectory built from float64 box vectors (gro)
+            # keeps float64 lengths/angles until the first slice or join casts them, so the two sides may differ in type
+            f32 = lambda v: np.asarray(v, dtype=np.float32)  # noqa: E731
+            if got.unitcell_lengths is None or not (np.array_equal(f32(got.unitcell_lengths), f32(full.unitcell_lengths[fsel]))
+                                                    and np.array_equal(f32(got.unitcell_angles), f32(full.unitcell_angles[fsel]))):
                 suffix = suffix or "cell"
                 problems.append("unit cell differs from the slice of the full load")
         elif got.unitcell_lengths is not None:
